@@ -206,7 +206,7 @@ def cases(draw):
     spec, mode = base["spec"], base["mode"]
     eff = H.sdl_view(GS.Spec(spec)) if mode == "sdl" else GS.Spec(spec)
     req0 = base["request"]
-    world = dict(base["world"], p_err=draw(st.sampled_from([0, 4, 9])))
+    world = dict(base["world"], p_err=draw(st.sampled_from([0, 4, 9, 6])))
     reqs = []
     for _ in range(draw(st.integers(3, 6))):
         kind = draw(st.sampled_from(["valid", "valid", "truncate", "truncate", "token-mutation", "ast-mutation", "operation", "variables", "nan", "nan",
